@@ -26,7 +26,7 @@ RangeOf(s) == {s[i] : i \in DOMAIN s}
 (* ------------------------------------------------------------------ definitions *)
 \* leaf item (JSON): [id, kind \in {"switch","reqflag","arg"}, arity, vt \in {"none","str","int"},
 \*                    shorts, longs, letters : Seq(STRING), env : STRING, adj, guard, hidden : BOOLEAN]
-\* positional      : [id, arity \in {"one","opt","many","some"}, strict \in {"any","strict","non_strict"}, vt]
+\* positional      : [id, arity \in {"one","opt","many","some","last"}, strict \in {"any","strict","non_strict"}, vt]
 \* level           : [named : Seq(leaf), tail, version : BOOLEAN]
 \* tail            : [kind |-> "none"] | [kind |-> "pos", items : Seq(positional)]
 \*                 | [kind |-> "cmd", optional : BOOLEAN, cmds : Seq([names, shorts : Seq(STRING), level])]
@@ -265,8 +265,9 @@ AssignPos(ps, ws, vals) ==
     ELSE LET r == TakeAll(p, ws, <<>>) IN
        IF r.st = "final" THEN [ok |-> FALSE, why |-> [k |-> "strict", id |-> p.id]]
        ELSE IF r.st = "conv" THEN [ok |-> FALSE, why |-> [k |-> "conv", id |-> p.id, w |-> r.w]]
-       ELSE IF p.arity = "some" /\ r.got = <<>> THEN [ok |-> FALSE, why |-> [k |-> "missing", id |-> p.id]]
-       ELSE AssignPos(Tail(ps), r.rest, Append(vals, r.got))
+       ELSE IF p.arity \in {"some", "last"} /\ r.got = <<>> THEN [ok |-> FALSE, why |-> [k |-> "missing", id |-> p.id]]
+       \* (`last`: every word the positional can take is taken, the value is the last one)
+       ELSE AssignPos(Tail(ps), r.rest, Append(vals, IF p.arity = "last" THEN r.got[Len(r.got)] ELSE r.got))
 
 \* batteries: two neighbouring repeated flags read as ONE number, offset + #first - #second kept within [min, max]
 \* (`verbose_and_quiet_by_number`), or as that number's entry of a table (`verbose_by_slice`: the index is the value here)
